@@ -25,6 +25,9 @@ import errno
 from harness.util import same
 from env import coop
 import ndef as real_ndef
+import nfc.clf
+import nfc.dep
+from env.air import Air, IniClf, TgtClf
 import nfc.llcp
 import nfc.llcp.llc as llcmod
 import nfc.llcp.tco as tco
@@ -36,6 +39,14 @@ import nfc.handover
 import nfc.handover.client
 import nfc.handover.server
 from symx.runner import exc_label
+
+
+class _FixedOs(object):
+    """module attribute `os` of nfc.dep: urandom() is a fixed pattern"""
+
+    @staticmethod
+    def urandom(n):
+        return bytes(bytearray((7 * i + 1) & 255 for i in range(n)))
 
 
 class NdefStub(object):
@@ -135,7 +146,7 @@ def content(sx, tag, n, miu):
 class Stack(object):
     MAX_ROUNDS = 4000
 
-    def __init__(self, sx, miu_c, miu_s, client_role, agf=True):
+    def __init__(self, sx, miu_c, miu_s, client_role, agf=True, mac='pump'):
         self.sx = sx
         self.S = coop.new_threaded(sx)
         self.S.MAX_WAITS = 100000
@@ -167,8 +178,14 @@ class Stack(object):
         self.cycles = 0
         self.adopted = 0
         self.nserve = 0
+        self.dep = None
+        self.moved = False
+        if mac == 'dep':
+            self.start_dep()
 
     def close(self):
+        if self.dep is not None:
+            self.dep['air'].abort()
         self.S.current = 'setup'
         self.S.shutdown()
         for m, a, v in self.saved:
@@ -192,36 +209,91 @@ class Stack(object):
         if q.name == "FRMR":
             sx.check(False, "stack:frame-reject-on-the-link")
 
-    def transfer(self, side):
-        """one frame from `side` to the other; -> True if not SYMM"""
+    def outbound(self, side, symm=False):
+        """what `side` sends next: -> encoded frame or None (nothing but
+        SYMM; with symm=True the SYMM PDU is encoded)"""
         sx = self.sx
         other = 's' if side == 'c' else 'c'
         p = self.L[side].collect()
         if p is None:
-            return False
+            return pdu.encode(pdu.Symmetry()) if symm else None
         frame = pdu.encode(p)
         info = len(frame) - p.header_size
         self.frames[side].append((p.name, info))
         sx.check(info <= self.link_miu[other],
                  "stack:frame-exceeds-peer-link-miu:" + p.name)
+        self.moved = True
+        return frame
+
+    def inbound(self, side, frame):
+        """`side` receives a frame sent by the other side"""
+        other = 's' if side == 'c' else 'c'
         q = pdu.decode(frame)
+        if q.name == "SYMM":
+            return
         if q.name == "AGF":
-            sx.reach("stack:aggregated-frame")
+            self.sx.reach("stack:aggregated-frame")
         for x in (q if q.name == "AGF" else [q]):
-            self.note(side, x)
-        self.L[other].dispatch(q)
-        return True
+            self.note(other, x)
+        self.L[side].dispatch(q)
 
     def cycle(self):
         self.cycles += 1
-        moved = False
-        for side in self.order:
-            try:
-                if self.transfer(side):
-                    moved = True
-            except coop.LinkBlocked as e:
-                self.sx.check(False, "stack:link-thread-blocked:" + e.site)
-        return moved
+        self.moved = False
+        ini, tgt = self.order
+        try:
+            if self.dep is None:
+                for a, b in ((ini, tgt), (tgt, ini)):
+                    frame = self.outbound(a)
+                    if frame is not None:
+                        self.inbound(b, frame)
+            else:
+                # the initiator's frame goes through the real NFC-DEP pair;
+                # the target's half of the cycle runs inside (target_half)
+                frame = self.outbound(ini, symm=True)
+                rsp = self.dep['ini'].exchange(frame, 2.0)
+                self.dep_frames = len(self.dep['air'].frames)
+                self.inbound(ini, rsp)
+        except coop.LinkBlocked as e:
+            self.sx.check(False, "stack:link-thread-blocked:" + e.site)
+        return self.moved
+
+    # ---- mac=dep: real nfc.dep.Initiator / Target over env.air (lossless)
+    def start_dep(self):
+        sx = self.sx
+        self.saved.append((nfc.dep, 'os', nfc.dep.os))
+        nfc.dep.os = _FixedOs
+        air = Air(sx, tech='106A', max_faults=0, max_frames=20000)
+        ini = nfc.dep.Initiator(IniClf(air))
+        tgt = nfc.dep.Target(TgtClf(air))
+        self.dep = dict(air=air, ini=ini, tgt=tgt, end=None)
+        tside = self.order[1]
+
+        def target_stack():
+            if tgt.activate(timeout=1.0, lrt=3, rwt=8,
+                            gbt=b"Ffm\x01\x01\x11") is None:
+                self.dep['end'] = "not-activated"
+                return
+            rsp = None
+            while True:
+                try:
+                    req = tgt.exchange(rsp, 30.0)
+                except nfc.clf.CommunicationError as e:
+                    self.dep['end'] = type(e).__name__
+                    return
+                if req is None:
+                    self.dep['end'] = "None"
+                    return
+                self.inbound(tside, req)
+                rsp = self.outbound(tside, symm=True)
+        air.start_target(target_stack)
+        gb = ini.activate(None, brs=0, lri=3, acm=False,
+                          gbi=b"Ffm\x01\x01\x11")
+        if gb is None:
+            sx.check(False, "stack:dep-activation-failed")
+        # the DEP_REQ that ends the target's listen(): one SYMM exchange
+        self.cycle()
+        sx.reach("stack:dep-activated")
 
     # ---- the scheduler
     def adopt(self):
@@ -318,6 +390,16 @@ class Stack(object):
                 sx.check(False, "stack:server-thread-ends-abnormally:%s"
                          % n.rstrip("0123456789"))
         sx.reach("stack:all-threads-returned")
+        if self.dep is not None:
+            air = self.dep['air']
+            chained = [f for f in air.frames if f.kind == "INF+"]
+            if len([f for f in chained if f.sender == 'I']) >= 2:
+                sx.reach("stack:dep-chained-request")
+            if len([f for f in chained if f.sender == 'T']) >= 2:
+                sx.reach("stack:dep-chained-response")
+            self.dep['ini'].deactivate(release=True)
+            air.field_off()
+            sx.check(self.dep['end'] == "None", "stack:dep-target-ends-abnormally")
 
 
 def exchange(sx, st, client_body, lagger, lag, sd=None):
@@ -357,7 +439,8 @@ def pick_cfg(sx, cfgs):
 def snep_put(sx, cfgs, lens_options, limit):
     cfg = pick_cfg(sx, cfgs)
     lens = sx.pick("lens", lens_options)
-    st = Stack(sx, cfg['miu_c'], cfg['miu_s'], cfg['role'])
+    st = Stack(sx, cfg['miu_c'], cfg['miu_s'], cfg['role'],
+               mac=cfg.get('mac', 'pump'))
     try:
         return _snep_put(sx, st, cfg, lens, limit)
     finally:
@@ -422,7 +505,8 @@ def _snep_put(sx, st, cfg, lens, limit):
 def snep_get(sx, cfgs, len_options, accept):
     cfg = pick_cfg(sx, cfgs)
     nreq, nrsp = sx.pick("lens", len_options)
-    st = Stack(sx, cfg['miu_c'], cfg['miu_s'], cfg['role'])
+    st = Stack(sx, cfg['miu_c'], cfg['miu_s'], cfg['role'],
+               mac=cfg.get('mac', 'pump'))
     try:
         return _snep_get(sx, st, cfg, nreq, nrsp, accept)
     finally:
@@ -474,7 +558,8 @@ def handover(sx, cfgs, options):
     """options: [[request pad, response pad], ...] per connection"""
     cfg = pick_cfg(sx, cfgs)
     pads = sx.pick("pads", options)
-    st = Stack(sx, cfg['miu_c'], cfg['miu_s'], cfg['role'])
+    st = Stack(sx, cfg['miu_c'], cfg['miu_s'], cfg['role'],
+               mac=cfg.get('mac', 'pump'))
     try:
         return _handover(sx, st, cfg, pads)
     finally:
@@ -525,9 +610,10 @@ def _handover(sx, st, cfg, pads):
 
 # ----------------------------------------------------------------------------
 def cfg(miu_c=128, miu_s=128, rw=15, srv_miu=1984, role='ini', lagger=None,
-        lag=0, cli_miu=248, cli_rw=2, sd=0):
+        lag=0, cli_miu=248, cli_rw=2, sd=0, mac='pump'):
     return dict(miu_c=miu_c, miu_s=miu_s, rw=rw, srv_miu=srv_miu, role=role,
-                lagger=lagger, lag=lag, cli_miu=cli_miu, cli_rw=cli_rw, sd=sd)
+                lagger=lagger, lag=lag, cli_miu=cli_miu, cli_rw=cli_rw, sd=sd,
+                mac=mac)
 
 
 def with_sd(cfgs):
@@ -600,6 +686,27 @@ def partitions(tier):
                 role=r, lagger=lg, lag=n) for r in roles for lg, n in lags[:3]]
     add("handover", "two", cfgs=cfgs,
         options=[[[0, 0], [1, 1]], [[100, 300], [200, 130]]])
+    # ---- mac=dep: every LLC frame through the real NFC-DEP Initiator/Target
+    # pair; link MIU 1024 / 2175 = 5 / 9 DEP frames of 251 octets per frame
+    for m in (1024, 2175):
+        cfgs = [cfg(miu_c=m, miu_s=m, rw=2, role=r, lagger=lg, lag=n,
+                    mac='dep') for r in roles for lg, n in lags[:2]]
+        e = min(m, 1984)
+        ns = [e - 6, 2 * e + 40] if quick else \
+            [5, e - 7, e - 6, e - 5, 2 * e + 40, 4 * e]
+        add("snep_put", "dep:%d" % m, cfgs=cfgs,
+            lens_options=[[n] for n in ns], limit=None)
+    cfgs = [cfg(miu_c=2175, miu_s=2175, rw=2, srv_miu=1984, cli_miu=2175,
+                cli_rw=2, role=r, lagger=lg, lag=n, mac='dep')
+            for r in roles for lg, n in (lags[:1] + lags[2:3])]
+    add("handover", "dep:2175", cfgs=cfgs,
+        options=[[[700, 2300]], [[2500, 600]]] +
+        ([] if quick else [[[1931, 2129]], [[5000, 5000]]]))
+    if not quick:
+        cfgs = [cfg(miu_c=1024, miu_s=1024, rw=2, role=r, mac='dep')
+                for r in roles]
+        add("snep_get", "dep:1024", cfgs=cfgs, accept=None,
+            len_options=[[1100, 300], [3, 900]])
     return parts
 
 
@@ -611,15 +718,17 @@ MUST_REACH = ["stack:put:delivered", "stack:put:fragmented",
               "stack:get:excess-data", "stack:get:response-fragmented",
               "stack:handover:exchanged", "stack:more-fragments-than-window",
               "stack:reader-lags", "stack:aggregated-frame",
-              "stack:service-resolved",
+              "stack:service-resolved", "stack:dep-activated",
+              "stack:dep-chained-request", "stack:dep-chained-response",
               "stack:all-threads-returned"]
 BOUNDS = {
-    "quick": "full LLCP stack: two real LogicalLinkControllers joined by a frame pump (collect -> encode -> decode -> dispatch, aggregation on), client on the initiator and on the target side; SNEP client (socket MIU 128, RW 1 - it has no parameters) against a real SnepServer with recv_buf 1, 2, 15 and link MIU 128/128, 248/248, 2175/2175, 128/248 (server socket MIU 200 below the link MIU), 2175/128: PUT of 5-7 lengths around k*MIU-6 (k<=5, more fragments than the window), two PUTs on one connection, max_acceptable_length = length-1 / length; GET with responses of 0..400 octets (up to 4 fragments into RW 1), acceptable length below the response; handover client (recv_miu 128/248, recv_buf 1, 2, 15) and HandoverServer with requests/responses of 1..6 fragments, two requests on one connection; schedules: every thread runs as soon as it is notified, or the per-connection server thread / the client lags 2 link cycles behind every notification; SNEP octets concrete non-periodic with up to 8 symbolic octets (first, last, both sides of the fragment boundaries), handover messages concrete",
-    "thorough": "as quick with more lengths (up to 8 fragments / 5*MIU), lags of 1, 2 and 5 cycles",
+    "quick": "full LLCP stack: two real LogicalLinkControllers joined by a frame pump (collect -> encode -> decode -> dispatch, aggregation on), client on the initiator and on the target side; SNEP client (socket MIU 128, RW 1 - it has no parameters) against a real SnepServer with recv_buf 1, 2, 15 and link MIU 128/128, 248/248, 2175/2175, 128/248 (server socket MIU 200 below the link MIU), 2175/128: PUT of 5-7 lengths around k*MIU-6 (k<=5, more fragments than the window), two PUTs on one connection, max_acceptable_length = length-1 / length; GET with responses of 0..400 octets (up to 4 fragments into RW 1), acceptable length below the response; handover client (recv_miu 128/248, recv_buf 1, 2, 15) and HandoverServer with requests/responses of 1..6 fragments, two requests on one connection; schedules: every thread runs as soon as it is notified, or the per-connection server thread / the client lags 2 link cycles behind every notification; SNEP octets all symbolic up to 260 octets, longer messages concrete non-periodic with up to 8 symbolic octets (first, last, both sides of the fragment boundaries), handover messages concrete; mac=dep: three partitions (SNEP PUT at link MIU 1024 and 2175, handover at 2175 with client recv_miu 2175; client on initiator and on target; prompt and lagging reader) in which every LLC frame, SYMM included, passes through a real activated nfc.dep.Initiator.exchange / nfc.dep.Target.exchange pair over the lossless env.air (LR 254: 5 resp. 9 chained DEP frames per LLC frame in both directions)",
+    "thorough": "as quick with more lengths (up to 8 fragments / 5*MIU), lags of 1, 2 and 5 cycles; mac=dep with more lengths and a SNEP GET partition",
 }
-OUTSIDE = ["NFC-DEP and the drivers below the frame pump (C04, C13); the pump is lossless and strictly alternating",
+OUTSIDE = ["the drivers below NFC-DEP (C13) and NFC-DEP faults (loss, corruption, retransmission: C04): the frame pump and, in the mac=dep partitions, the air are lossless and strictly alternating; NFC-DEP only at 106A passive, LR 254, without DID/NAD",
            "preemption of application threads anywhere but where they block; several clients at once; more than one lagging thread",
            "LLCP security; link MIU values other than 128, 248, 2175"]
 ASSUMPTIONS = ["env.coop.ThreadSched: application threads are OS threads in strict alternation with the main thread (link + scheduler); a thread runs when notified (the lagging one `lag` link cycles later); a poll() time-out fires only when no thread is runnable and the link has nothing but SYMM to move",
                "one link cycle = collect()/dispatch() in the order of the two run loops (initiator first); the run loops themselves (SYMM counting, delays) are not executed; at the end both controllers are terminated directly",
+               "mac=dep: the target's half of a link cycle (dispatch, collect) runs in the target stack thread of env.air inside the initiator's exchange(); both MACs are activated through their real activate() against env.air (IniClf.sense / ListenStub), nfc.dep's os.urandom is a fixed pattern",
                "ndef inside nfc.snep.server replaced by pass-through stubs; the handover modules get ndeflib through an adapter (concrete octets)"]
